@@ -9,8 +9,11 @@
 EXTENDS TraceBase
 
 \* one fill: price x volume of cash from buyer to seller, volume shares from seller to buyer
+\* (a recorded price far outside any price range stands for "not on the unit grid": it never enters the arithmetic - the
+\*  holdings observed can then not equal the fold, which is what the trace specification reports)
 ApplyFill(led, f, cs) ==
-  LET ba == f[5] + 1  sa == f[6] + 1  m == f[8] + 1  amt == f[3] * f[4] * cs[m]  vol == f[4] IN
+  LET ba == f[5] + 1  sa == f[6] + 1  m == f[8] + 1
+      amt == IF f[3] < -100000000 THEN 0 ELSE f[3] * f[4] * cs[m]  vol == f[4] IN
   [a \in 1..Len(led) |->
      [k \in 1..Len(led[a]) |->
         led[a][k]
